@@ -107,7 +107,8 @@ class Lines:
     """solo codes of candidate lines on the current tree (12 options each), learned through the harness"""
 
     def __init__(self):
-        recs = [{"id": "L%d" % i, "prop": "X", "status": "Unconstrained", "text": t} for i, t in enumerate(POOL + BADLINES + OPTSENS)]
+        # (ids derived from the text: a replay file stays valid when lines are added to the pool)
+        recs = [{"id": "L%08x" % zlib.crc32(t.encode()), "prop": "X", "status": "Unconstrained", "text": t} for t in POOL + BADLINES + OPTSENS]
         ev = A.run_lines(recs, ctx="solo0", modes="plain")
         self.codes, self.text, self.bylen, self.bad, self.sens = {}, {}, collections.defaultdict(list), [], []
         for e in ev:
